@@ -157,6 +157,44 @@ class Fn:
         raise Untranslatable("statement " + ast.dump(s)[:120])
 
 
+def _writes(stmt):
+    out = set()
+    for n in ast.walk(stmt):
+        if isinstance(n, ast.Assign):
+            out |= {ast.unparse(t) for t in n.targets}
+        elif isinstance(n, ast.AugAssign):
+            out.add(ast.unparse(n.target))
+    return out
+
+
+def _reads(stmt):
+    out = set()
+    for n in ast.walk(stmt):
+        if isinstance(n, ast.Name):
+            out.add(n.id)
+        elif isinstance(n, ast.Attribute):
+            try:
+                out.add(dotted(n))
+            except Untranslatable:
+                pass
+    return out
+
+
+def backward_slice(stmts, target, inputs=()):
+    """the top-level statements of a function body that (transitively) feed the last assignment to `target`
+    (source text, e.g. "self.num_samples"), in source order – so that a value built in a local and assigned once
+    translates like a value built in place"""
+    idx = [i for i, s in enumerate(stmts) if target in _writes(s)]
+    if not idx:
+        raise Untranslatable(f"no assignment to {target}")
+    keep, need = set(), {target}
+    for i in range(idx[-1], -1, -1):
+        if _writes(stmts[i]) & need:
+            keep.add(i)
+            need |= _reads(stmts[i]) - set(inputs) - {"self"}     # `inputs` are parameters of the generated definition
+    return [stmts[i] for i in sorted(keep)]
+
+
 def find_function(tree, name, cls=None):
     body = tree.body
     if cls is not None:
